@@ -410,4 +410,84 @@ theorem wide_contract :
     rw [hq, huu] at this
     nlinarith [sq_nonneg (u 0), sq_nonneg (u 1), sq_nonneg (u 2), sq_nonneg (u 3)]
 
+/-! ### uniqueness up to sign under a simple largest eigenvalue -/
+
+/-- If the eigenspace of `v`'s eigenvalue is the line through `v` (the largest eigenvalue is simple), every
+    other vector meeting the contract is `±v`.  No symmetry of `M` is needed. -/
+theorem contract_unique_of_simple (M : Matrix (Fin d) (Fin d) ℝ) (v v' : Fin d → ℝ)
+    (hv : IsDominantEigvec M v) (hv' : IsDominantEigvec M v')
+    (hsimple : ∀ (lam : ℝ) (u : Fin d → ℝ), M *ᵥ v = lam • v → M *ᵥ u = lam • u → ∃ c : ℝ, u = c • v) :
+    v' = v ∨ v' = -v := by
+  obtain ⟨hu, lam, hM, hmax⟩ := hv
+  obtain ⟨hu', lam', hM', hmax'⟩ := hv'
+  have hv0 : v ≠ 0 := by intro h; rw [h] at hu; simp at hu
+  have hv0' : v' ≠ 0 := by intro h; rw [h] at hu'; simp at hu'
+  have hle : lam' ≤ lam := hmax lam' v' hv0' hM'
+  have hge : lam ≤ lam' := hmax' lam v hv0 hM
+  have heq : lam' = lam := le_antisymm hle hge
+  rw [heq] at hM'
+  obtain ⟨c, hc⟩ := hsimple lam v' hM hM'
+  have : c ^ 2 = 1 := by
+    rw [hc, smul_dotProduct, dotProduct_smul, hu] at hu'
+    simp only [smul_eq_mul, mul_one] at hu'
+    nlinarith
+  rcases sq_eq_one_iff.mp this with h1 | h1
+  · left; rw [hc, h1, one_smul]
+  · right; rw [hc, h1, neg_one_smul]
+
+/-- A spectral gap in quadratic-form terms (`λ₂ ≤ t < a = λ₁` for the symmetric matrix `Σ w_i c_i c_iᵀ`)
+    makes the largest eigenvalue simple. -/
+theorem simple_of_quadform (w : Fin n → ℝ) (c : Fin n → Fin d → ℝ) (p : Fin d → ℝ) (a t : ℝ)
+    (hp : p ⬝ᵥ p = 1) (hta : t < a)
+    (hQ : ∀ u : Fin d → ℝ, ∑ i, w i * (c i ⬝ᵥ u) ^ 2 ≤ a * (p ⬝ᵥ u) ^ 2 + t * (u ⬝ᵥ u - (p ⬝ᵥ u) ^ 2))
+    (u : Fin d → ℝ) (hu : outerSum w c *ᵥ u = a • u) : ∃ k : ℝ, u = k • p := by
+  refine ⟨p ⬝ᵥ u, ?_⟩
+  have hq := outerSum_quadform w c u
+  rw [hu, dotProduct_smul, smul_eq_mul] at hq
+  have hb := hQ u
+  rw [← hq] at hb
+  have hcs := dot_sq_le p u hp
+  have hzero : u ⬝ᵥ u - (p ⬝ᵥ u) ^ 2 = 0 := by
+    by_contra hne
+    have hpos : 0 < u ⬝ᵥ u - (p ⬝ᵥ u) ^ 2 := lt_of_le_of_ne (sub_nonneg.mpr hcs) (Ne.symm hne)
+    nlinarith [mul_pos (sub_pos.mpr hta) hpos]
+  have e : (u - (p ⬝ᵥ u) • p) ⬝ᵥ (u - (p ⬝ᵥ u) • p) = u ⬝ᵥ u - (p ⬝ᵥ u) ^ 2 := by
+    simp only [sub_dotProduct, dotProduct_sub, smul_dotProduct, dotProduct_smul, smul_eq_mul, hp,
+      dotProduct_comm u p]
+    ring
+  rw [hzero] at e
+  exact sub_eq_zero.mp (dotProduct_self_eq_zero.mp e)
+
+/-- two orthogonal inputs with equal weights (a half turn apart as rotations): both meet the contract -/
+theorem half_turn_both_dominant (p q : Fin d → ℝ) (hp : p ⬝ᵥ p = 1) (hq : q ⬝ᵥ q = 1) (hpq : p ⬝ᵥ q = 0) :
+    IsDominantEigvec (outerSum (fun _ : Fin 2 => (1 / 2 : ℝ)) ![p, q]) p ∧
+    IsDominantEigvec (outerSum (fun _ : Fin 2 => (1 / 2 : ℝ)) ![p, q]) q := by
+  have hqp : q ⬝ᵥ p = 0 := by rw [dotProduct_comm]; exact hpq
+  have hmax : ∀ (mu : ℝ) (u : Fin d → ℝ), u ≠ 0 →
+      outerSum (fun _ : Fin 2 => (1 / 2 : ℝ)) ![p, q] *ᵥ u = mu • u → mu ≤ 1 / 2 := by
+    intro mu u hu hMu
+    have hq2 := outerSum_quadform (fun _ : Fin 2 => (1 / 2 : ℝ)) ![p, q] u
+    rw [hMu, dotProduct_smul, smul_eq_mul, Fin.sum_univ_two] at hq2
+    simp only [Matrix.cons_val_zero, Matrix.cons_val_one] at hq2
+    have hpos := dot_self_pos hu
+    -- Bessel: (p·u)² + (q·u)² ≤ u·u
+    have hb : 0 ≤ (u - (p ⬝ᵥ u) • p - (q ⬝ᵥ u) • q) ⬝ᵥ (u - (p ⬝ᵥ u) • p - (q ⬝ᵥ u) • q) := by
+      simp only [dotProduct]; exact Finset.sum_nonneg (fun i _ => mul_self_nonneg _)
+    have e : (u - (p ⬝ᵥ u) • p - (q ⬝ᵥ u) • q) ⬝ᵥ (u - (p ⬝ᵥ u) • p - (q ⬝ᵥ u) • q)
+        = u ⬝ᵥ u - (p ⬝ᵥ u) ^ 2 - (q ⬝ᵥ u) ^ 2 := by
+      simp only [sub_dotProduct, dotProduct_sub, smul_dotProduct, dotProduct_smul, smul_eq_mul, hp, hq,
+        hpq, hqp, dotProduct_comm u p, dotProduct_comm u q]
+      ring
+    rw [e] at hb
+    by_contra hlt
+    rw [not_le] at hlt
+    nlinarith [mul_pos (sub_pos.mpr hlt) hpos]
+  refine ⟨⟨hp, 1 / 2, ?_, hmax⟩, ⟨hq, 1 / 2, ?_, hmax⟩⟩
+  · funext k
+    rw [outerSum_mulVec, Fin.sum_univ_two]
+    simp [hp, hqp]
+  · funext k
+    rw [outerSum_mulVec, Fin.sum_univ_two]
+    simp [hq, hpq]
+
 end BFL.Quat
